@@ -14,13 +14,6 @@ unsigned VCALL_VariableExpression_symbolId(const struct VariableExpression *e) {
 unsigned VCALL_Expression_symbolId(const struct Expression *e) { (void)e; return g_exp_id; }
 struct Context__MemorySlot *_ZNSt6vectorIN4bloc7Context10MemorySlotESaIS2_EEixEm(struct vec_MemorySlot *this, unsigned long n)
 { (void)this; __CPROVER_assert(n == g_var_id, "the slot of the iterator variable"); return &g_var_slot; }
-/* void Value::swap(Value& v) noexcept : exchange */
-void _ZN4bloc5Value4swapERS0_(struct Value *this, struct Value *v)
-{
-  struct Value t; t._flags = this->_flags; t._type._major = this->_type._major; t._type._minor = this->_type._minor; t._type._level = this->_type._level; t._value.i = this->_value.i;
-  this->_flags = v->_flags; this->_type._major = v->_type._major; this->_type._minor = v->_type._minor; this->_type._level = v->_type._level; this->_value.i = v->_value.i;
-  v->_flags = t._flags; v->_type._major = t._type._major; v->_type._minor = t._type._minor; v->_type._level = t._type._level; v->_value.i = t._value.i;
-}
 
 #define DATA ((struct FORALLStatement__RT *)data)
 #define WAS_DELETED(p) ((g_deleted_n > 0 && g_deleted[0] == (void *)(p)) || (g_deleted_n > 1 && g_deleted[1] == (void *)(p)))
